@@ -169,8 +169,8 @@ func H_C08_skip() {
 			pattern += "/" + []string{"b", "c", "sub"}[vxrt.Choice("second-level-literal", 3)]
 		}
 		vxrt.Flag("test.run", pattern)
-		if vxrt.Param("known_K4", 1) == 1 {
-			// known finding K4: the -run pattern, applied as one unanchored regexp to the
+		if vxrt.Param("known_K4", 0) == 1 {
+			// (was known finding K4, fixed in /repo: the exclusion is off by default): the -run pattern, applied as one unanchored regexp to the
 			// whole entry id "name - n", matches the id of a test that go test did not select
 			for _, tn := range append(append([]string{}, tests...), "TestP/c") {
 				m, _ := regexp.MatchString(pattern, tn+" - 1")
@@ -234,7 +234,7 @@ func H_C08_skip() {
 
 	Clean(nil)
 	out := vxrt.Stdout()
-	if ran["TestAB"] && (mode == 0 || vxrt.Param("known_K4", 1) == 1) {
+	if ran["TestAB"] {
 		// TestAB ran and made one call: its second entry is stale whatever was skipped
 		_, _, err := getPrevSnapshot("[TestAB - 2]", path)
 		stillThere := err == nil
